@@ -8,8 +8,9 @@ import re
 
 PROP = 'C20'
 LEAN_MODULES = ['FalconModel.Cors', 'FalconModel.CorsProofs', 'FalconModel.CorsConfig', 'FalconModel.CorsConfigProofs', 'FalconModel.CorsCall',
-                'FalconModel.Pipeline', 'FalconModel.PipelineProofs', 'FalconModel.PipelineSpec']
-DRIVERS = ['crdriver']
+                'FalconModel.Pipeline', 'FalconModel.PipelineProofs', 'FalconModel.PipelineSpec',
+                'FalconModel.Dispatch', 'FalconModel.DispatchProofs', 'FalconModel.CorsDispatch', 'FalconModel.CorsDispatchProofs']
+DRIVERS = ['crdriver', 'cddriver']
 THEOREMS = [
     # header-map algebra the policy proofs rest on
     'Co.get_set_self', 'Co.get_set_ne', 'Co.get_del_self', 'Co.get_del_ne', 'Co.find_filter_ne', 'Co.get_del_any', 'Co.get_del_absent',
@@ -43,10 +44,33 @@ THEOREMS = [
     'Cg.cors_enable_process_response', 'Cg.req_succeeded_by_target', 'Cg.req_failed_in_middleware',
     'Cg.req_failed_in_resource_middleware',
     # --- Cg: the call CORSMiddleware(*positional, **keyword) (argument binding of the signature, then __init__) ---------------------
+    # --- Cd: the producers of the Allow header (Dp dispatch over the registration history, generated OPTIONS responder, 405 / 404,
+    #     StaticRoute, application code) composed with process_response -----------------------------------------------------------
+    'Cd.responder_routed', 'Cd.responder_auto_options', 'Cd.responder_own_options', 'Cd.responder_not_found_iff',
+    'Cd.get_allow_auto', 'Cd.get_other_auto', 'Cd.grant_ne', 'Cd.respond_own_grants',
+    'Cd.preflight_methods_exact', 'Cd.preflight_methods_history',
+    'Cd.exchange_app_code', 'Cd.app_code_preflight_approved', 'Cd.app_code_preflight_denied', 'Cd.app_code_raised', 'Cd.static_preflight',
+    'Cd.ungranted_untouched', 'Cd.ungranted_no_grants', 'Cd.ungranted_keeps_allow', 'Cd.not_found_exchange',
+    'Cd.exchangeMw_eq', 'Cd.exchangeMw_meta',
+    'Dp.reregistered_route_exact', 'Dp.options_allow_exact', 'Dp.latest_registration_wins', 'Dp.not_found_iff', 'Dp.lookup_resource_iff',
     'Cg.bindArgs_split', 'Cg.bindArgs_positional_order', 'Cg.bindArgs_two_positional', 'Cg.bindArgs_defaults', 'Cg.construct_defaults',
     'Cg.construct_star_star', 'Cg.construct_split',
 ]
 STATEMENTS = {
+    'Cd.preflight_methods_exact': 'for every add_route / add_sink / add_static_route history, every template the history left routed to a resource without on_options, every configuration and every state of the response before the responder: a preflight (OPTIONS + non-empty Access-Control-Request-Method) from a granted origin ends with Access-Control-Allow-Methods = exactly ", ".join of the Allow list Dp computes for that resource, Allow-Headers = the requested headers or *, Max-Age 86400, and WITHOUT the Allow header',
+    'Cd.preflight_methods_history': '... and the members of that list are exactly the methods m of COMBINED_METHODS for which the resource had a callable on_<m>[_<suffix>] at the latest accepted add_route call for the template, without WEBSOCKET (rejected calls and earlier registrations do not count)',
+    'Cd.app_code_preflight_approved': 'when a resource\'s own on_options or a sink answers, returns and leaves an Allow header v: the preflight of a granted origin is approved with exactly v and Allow is removed',
+    'Cd.app_code_preflight_denied': 'when it returns without an Allow header: all six grant headers (also Access-Control-Allow-Origin, also ones the application code set) and Allow are absent from the final response',
+    'Cd.app_code_raised': 'when it raises, the preflight patch does not run: Allow and the three preflight headers stay as the application code left them',
+    'Cd.static_preflight': 'a static route answers OPTIONS itself with Allow: GET, so a preflight of a granted origin to it is approved with exactly GET and loses Allow',
+    'Cd.ungranted_untouched': 'a request without Origin or with an Origin the configuration does not allow gets the responder\'s header map unchanged - for every history, route, sink, static route, method',
+    'Cd.ungranted_no_grants': '... so when falcon itself answers the OPTIONS request (generated responder, 404, static route) each of the six grant headers has the value earlier stages had put there (absent on a fresh response)',
+    'Cd.ungranted_keeps_allow': '... and the Allow header of the generated OPTIONS responder is then kept with exactly Dp\'s list',
+    'Cd.not_found_exchange': 'unrouted path (404) from a granted origin: the exchange is not successful, so only the origin / credentials grant and Expose-Headers are written (they ARE added to the 404); Allow and the three preflight headers stay as earlier stages left them; Access-Control-Allow-Origin is the echo (credentials) or * / the echo',
+    'Cd.respond_own_grants': 'falcon\'s own answers (generated OPTIONS responder, 405, 400, 404, a static route answering OPTIONS) never write one of the six grant headers',
+    'Cd.exchangeMw_eq': 'with process_request components in front of the policy, for every HTTP method the exchange is Cd.exchange on the header map those components left',
+    'Cd.exchangeMw_meta': 'the meta method WEBSOCKET used as HTTP method is answered 400 before any process_request ran: the policy sees the response as constructed, in an unsuccessful exchange',
+    'Cd.responder_not_found_iff': 'without a route the answer is 404 iff no registered sink / static route matches the path',
     'Co.noOriginF_untouched': 'a request without Origin leaves the whole response header map unchanged, for every configuration, pre-existing headers and outcome',
     'Co.disallowedF_untouched': 'a request whose Origin the configuration does not allow leaves the whole header map unchanged',
     'Co.changed_only_for_allowed_origin': 'if process_response changes anything at all, the request carried an Origin that allow_origins admits',
@@ -143,10 +167,16 @@ RULE = ('(0) constructor: allow_origins / expose_headers / allow_credentials dra
         'THE ARGUMENT OBJECTS of the constructor stay the caller\'s: in 50 % of the accepted constructor cases (0), 30 % of the unit cases (1) and 35 % of the apps (2; right after building the app or between two requests) the caller mutates the list / set / dict '
         '(behind a keys view) they passed - add an item (another origin, "*", a header name), remove one, clear() - after construction; the attributes are read again (second correspondence op of the same call line) and the policy is probed with the added / removed items: '
         'the configuration is what was passed at construction. '
+        '(3) Allow producers: real falcon.App / falcon.asgi.App with a random policy (constructor as in (0) or cors_enable=True), optionally a process_request component that pre-sets Allow / grant headers, sink_before_static_route default / False / True, '
+        'a history of 0-5 add_route calls over three templates (re-registrations, suffix None / "" / alt / nosuch - rejected calls included -, resources with random on_<method>[_alt] sets incl. on_options, WebDAV and on_websocket, each responder setting '
+        'a random subset of Allow / grant headers and returning or raising HTTPForbidden), 0-3 of two overlapping sinks and one static route in random order; 6 requests per app (72 % OPTIONS with Access-Control-Request-Method absent / empty / set, else GET / POST / DELETE / PROPFIND / HEAD / FOO / WEBSOCKET) '
+        'to routed, sink, static and unrouted paths from granted / ungranted / absent origins; final status, the seven headers and the responder that ran are compared with Cd.exchange, and judged by an oracle that knows the implemented methods of the latest accepted registration. '
         'non-trivial = request carries an Origin; distinct = distinct (level, stack, configuration, arrangement, request, plan)')
 PARTIAL = ('Modelled and proved: process_response (Co), CORSMiddleware.__init__ (Cg.normalise) and the cors_enable wiring of App.__init__ / add_middleware with the CORS component inside the C03 call '
-           'discipline (Cg + Pl.run_eq_spec). Not modelled in Lean: the producers of the Allow header the preflight rule reads (auto-OPTIONS responder - C02 - and StaticRoute; they are exercised by the '
-           'full-stack oracle only); hooks and error handlers (in the C03 model every raise that a registered handler takes is the one action "raise"; that HTTPStatus of any status, HTTPError and handled exceptions all are '
+           'discipline (Cg + Pl.run_eq_spec), and the producers of the Allow header composed with the policy (Cd.exchange: Dp dispatch over the registration history, generated OPTIONS responder, 405 / 400 / 404, '
+           'StaticRoute answering OPTIONS, application code as a sequence of set_header calls + return / raise) with CORSMiddleware as the only policy component (other middleware: Cg / Pl). '
+           'Not modelled in Lean: which template the router resolves a path to and which sinks / static routes match it (inputs of Cd.exchange; C01 / C02), StaticRoute serving files (application-code shaped: no header the policy reads), '
+           'the text order of the Allow list beyond Dp.sortM (tied by the correspondence, not restated); hooks and error handlers (in the C03 model every raise that a registered handler takes is the one action "raise"; that HTTPStatus of any status, HTTPError and handled exceptions all are '
            'such raises is tied by the wiring correspondence and judged by the full-stack oracle); constructor arguments outside the documented types (non-string items, unhashable items); the flag theorem Cg.response_call_of_member assumes that no process_response '
            'of a later-registered component raised (otherwise req_succeeded is False by then, as Pl.withFlags_flag states).')
 JOBS = {'quick': 4, 'thorough': 16}
@@ -398,7 +428,7 @@ def model_io(norm, origin, method, acrm, acrh, ok, pre, post):
 
 def run(ctx):
     import os
-    part = os.environ.get('VERIF_C20_PART', 'ctor,wire,unit,apps')      # debugging knob: run only some of the levels
+    part = os.environ.get('VERIF_C20_PART', 'ctor,wire,unit,apps,disp')      # debugging knob: run only some of the levels
     if 'ctor' in part:
         _ctor(ctx)
     if 'wire' in part:
@@ -410,6 +440,9 @@ def run(ctx):
     if 'apps' in part:
         _apps(ctx, asgi=False)
         _apps(ctx, asgi=True)
+    if 'disp' in part:
+        _dispatch(ctx, asgi=False)
+        _dispatch(ctx, asgi=True)
 
 
 # ------------------------------------------------------------------ (0) CORSMiddleware.__init__ = Cg.normalise
@@ -1608,3 +1641,245 @@ LEVEL_TEXT = ('Machine-checked proofs (Lean 4). (a) Cg.construct = Cg.bindArgs (
 LEVEL_NOTE = ('Trusted: Lean kernel + standard axioms; the Response header map (C15); correspondence harness, twin-app oracle. The wildcard rule is about grants of the middleware (responder-preset '
               'Access-Control-Allow-Credentials is left alone); Origin "*" is excluded.')
 TECHNIQUE = 'Lean 4 proofs on models of CORSMiddleware.__init__, the cors_enable wiring and process_response (header map) + differential correspondence (unit calls and calls observed inside real WSGI/ASGI apps) + twin-app statement oracle'
+
+
+# ------------------------------------------------------------------ (3) the Allow producers + the policy = Cd.exchange (Dp dispatch, responder, Co.processF)
+
+DISP_ATTR_METHODS = ['GET', 'POST', 'PUT', 'DELETE', 'PATCH', 'HEAD', 'OPTIONS', 'PROPFIND', 'WEBSOCKET']
+DISP_PATHS = [('/r0', 'r0'), ('/r1', 'r1'), ('/r2/7', 'r2'), ('/s0/x', '-'), ('/s/abc', '-'), ('/st/f.txt', '-'), ('/nowhere', '-')]
+DISP_TEMPLATES = {'r0': '/r0', 'r1': '/r1', 'r2': '/r2/{id}'}
+DISP_KEYS = {'acao': 'Access-Control-Allow-Origin', 'acac': 'Access-Control-Allow-Credentials', 'acam': 'Access-Control-Allow-Methods',
+             'acah': 'Access-Control-Allow-Headers', 'acma': 'Access-Control-Max-Age', 'aceh': 'Access-Control-Expose-Headers',
+             'allow': 'Allow', 'o1': 'X-App'}
+
+
+def _disp_gen_act(rnd, p_allow):
+    """what a harness responder does: set_header calls, then return / raise HTTPForbidden"""
+    sets = []
+    if rnd.random() < p_allow:
+        sets.append(('allow', rnd.choice(['GET, POST', 'PUT', 'GET', ''])))
+    for k, v in (('acam', 'PATCH'), ('acao', 'http://evil'), ('acac', 'true'), ('aceh', 'X-Mine'), ('o1', 'v')):
+        if rnd.random() < 0.12:
+            sets.append((k, v))
+    rnd.shuffle(sets)
+    return {'sets': sets, 'raises': rnd.random() < 0.1}
+
+
+def _disp_enc_sets(sets):
+    return ';'.join(f'{k}:{S(v)}' for k, v in sets) or '-'
+
+
+def _dispatch(ctx, asgi):
+    import asyncio
+    import os
+    import shutil
+    import tempfile
+    import falcon
+    import falcon.asgi
+    from falcon import constants
+    rnd = ctx.rng
+    stack = 'asgi' if asgi else 'wsgi'
+    sess = ctx.session(f'{stack} OPTIONS / preflight exchanges through real apps with random add_route / add_sink / add_static_route histories '
+                       f'(final status, Access-Control-* and Allow headers, responder that ran) = Cd.exchange', 'cddriver')
+    loop = asyncio.new_event_loop() if asgi else None
+    root = tempfile.mkdtemp(prefix='c20disp_')
+    with open(os.path.join(root, 'f.txt'), 'w') as f:
+        f.write('static file')
+    COMBINED = list(constants.COMBINED_METHODS)
+    AppT = falcon.asgi.App if asgi else falcon.App
+    LOG = []
+
+    def apply(resp, tag, act):
+        LOG.append((tag, act))
+        for k, v in act['sets']:
+            resp.set_header(DISP_KEYS[k], v)
+        if act['raises']:
+            raise falcon.HTTPForbidden()
+
+    def mk_responder(tag, act):
+        if asgi:
+            async def responder(self, req, resp, **kw):
+                apply(resp, tag, act)
+        else:
+            def responder(self, req, resp, **kw):
+                apply(resp, tag, act)
+        return responder
+
+    def mk_sink(tag, act):
+        if asgi:
+            async def sink(req, resp, **kw):
+                apply(resp, tag, act)
+        else:
+            def sink(req, resp, **kw):
+                apply(resp, tag, act)
+        return sink
+
+    def mk_pre(sets):
+        class Pre:
+            if asgi:
+                async def process_request(self, req, resp):
+                    for k, v in sets:
+                        resp.set_header(DISP_KEYS[k], v)
+            else:
+                def process_request(self, req, resp):
+                    for k, v in sets:
+                        resp.set_header(DISP_KEYS[k], v)
+        return Pre()
+
+    try:
+        for ai in range(ctx.n(260, 2400)):
+            # ---- the policy
+            cors_enable = rnd.random() < 0.2
+            if cors_enable:
+                kw, norm, cdesc = {}, ('*', set(), None), {'cors_enable': True}
+            else:
+                kw, norm, cdesc = gen_config(rnd)
+                kw = dict(kw)
+            ao, ac, ex = norm
+            pre_sets = []
+            if rnd.random() < 0.3:
+                for k, v in (('allow', 'BOGUS'), ('acam', 'PATCH'), ('acao', 'http://pre'), ('acma', '5'), ('o1', 'p')):
+                    if rnd.random() < 0.4:
+                        pre_sets.append((k, v))
+            mws = [mk_pre(pre_sets)] if pre_sets or rnd.random() < 0.2 else []
+            sbs = rnd.choice(['default', '0', '1'])
+            extra = {} if sbs == 'default' else {'sink_before_static_route': sbs == '1'}
+            if cors_enable:
+                app = AppT(middleware=mws, cors_enable=True, **extra)
+            else:
+                mw, how = call_documented(rnd, falcon.CORSMiddleware, kw)
+                if mw is None:
+                    ctx.oracle('a legal CORS configuration is accepted by the constructor', False, how, {'config': cdesc})
+                    continue
+                app = AppT(middleware=mws + [mw], **extra)
+            # ---- the registration history
+            regs, cur, acts_of = [], {}, {}
+            nres = 0
+            for _ in range(rnd.choice([0, 1, 2, 2, 3, 3, 4, 5])):
+                token = rnd.choice(['r0', 'r0', 'r1', 'r2'])  # (re-registration of a template is frequent)
+                rid = nres
+                nres += 1
+                attrs = set()
+                for m in rnd.sample(DISP_ATTR_METHODS, rnd.randint(0, 5)):
+                    attrs.add((m, rnd.choice([None, None, None, 'alt'])))
+                if rnd.random() < 0.35:
+                    attrs.add(('OPTIONS', rnd.choice([None, None, 'alt'])))
+                ns = {}
+                for m, sfx in sorted(attrs, key=str):
+                    tag = f'resource:{rid}:{m}'
+                    act = _disp_gen_act(rnd, 0.5 if m == 'OPTIONS' else 0.15)
+                    name = 'on_' + m.lower() + ('_' + sfx if sfx else '')
+                    ns[name] = mk_responder(tag + ('~' + sfx if sfx else ''), act)
+                resource = type(f'Res{rid}', (), ns)()
+                suffix = rnd.choice([None, None, None, '', 'alt', 'alt', 'nosuch'])
+                try:
+                    if suffix is None and rnd.random() < 0.5:
+                        app.add_route(DISP_TEMPLATES[token], resource)
+                    else:
+                        app.add_route(DISP_TEMPLATES[token], resource, suffix=suffix)
+                    raised = None
+                except Exception as e:
+                    raised = type(e).__name__
+                fa = ','.join(sorted(m + ('~' + s if s else '') for m, s in attrs)) or '-'
+                regs.append(f"{token}:{rid}:{'-' if suffix is None else '=' + suffix}:{fa}")
+                eff = suffix or None
+                impl = {m for m, s in attrs if s == eff and m in COMBINED}
+                accepted = eff is None or bool(impl)           # the documented rule (SuffixedMethodNotFoundError)
+                ctx.oracle('add_route raises exactly when a suffix is given and no responder carries it', (raised is not None) == (not accepted),
+                           f'add_route raised {raised}', {'reg': regs[-1]})
+                if raised is None:
+                    cur[token] = (rid, eff, impl)
+            ops, sinks = [], []
+            plan = ['s0', 's1', 't2']
+            rnd.shuffle(plan)
+            for o in plan[:rnd.choice([0, 1, 2, 2, 3, 3])]:
+                if o[0] == 's':
+                    prefix = '/s0' if o == 's0' else '/s'
+                    act = _disp_gen_act(rnd, 0.5)
+                    app.add_sink(mk_sink(f'sink:{o[1:]}', act), prefix)
+                    sinks.append((o, prefix))
+                else:
+                    app.add_static_route('/st', root)
+                ops.append(o)
+            desc = {'stack': stack, 'config': cdesc, 'pre': pre_sets, 'regs': regs, 'ops': ops, 'sbs': sbs}
+            # ---- requests
+            for qi in range(6):
+                path, token = rnd.choice(DISP_PATHS)
+                if cur and rnd.random() < 0.55:         # mostly paths that the history left routed
+                    path, token = rnd.choice([pt for pt in DISP_PATHS if pt[1] in cur])
+                method = 'OPTIONS' if rnd.random() < 0.72 else rnd.choice(['GET', 'POST', 'DELETE', 'PROPFIND', 'FOO', 'WEBSOCKET', 'HEAD'])
+                origin = rnd.choice([None, 'http://a', 'http://a', 'http://b', 'http://b', 'http://c', 'http://d', 'HTTP://A', 'http://a/'])
+                acrm = rnd.choice([None, '', 'GET', 'GET', 'POST', 'POST']) if method == 'OPTIONS' else rnd.choice([None, None, 'GET'])
+                acrh = rnd.choice([None, None, 'X-H', 'X-H, Content-Type', ''])
+                hdrs = {}
+                if origin is not None:
+                    hdrs['Origin'] = origin
+                if acrm is not None:
+                    hdrs['Access-Control-Request-Method'] = acrm
+                if acrh is not None:
+                    hdrs['Access-Control-Request-Headers'] = acrh
+                hits = [o for o, prefix in sinks if re.match(prefix, path)] + (['t2'] if 't2' in ops and path.startswith('/st/') else [])
+                del LOG[:]
+                case = dict(desc, request={'method': method, 'path': path, 'headers': dict(hdrs)})
+                try:
+                    status, hd, body = _http_call(asgi, loop, app, method, path, hdrs)
+                except Exception as e:
+                    ctx.oracle('the exchange completes', False, f'{type(e).__name__}: {e}', case)
+                    continue
+                ran = list(LOG)
+                act = ran[0][1] if ran else {'sets': [], 'raises': False}
+                if ran:
+                    who = ran[0][0].split('~')[0]
+                elif status in (404, 400):
+                    who = str(status)
+                elif status == 405:
+                    who = '405:' + hd.get('allow', '').replace(', ', ',')
+                elif path.startswith('/st/') and token == '-':
+                    who = 'static:2'
+                else:
+                    who = 'options:' + (hd['allow'] if 'allow' in hd else hd.get('access-control-allow-methods', '')).replace(', ', ',')
+                line = (f"x {cfg_words(norm)} combined={','.join(COMBINED)} regs={'|'.join(regs) or '-'} ops={','.join(ops) or '-'} sbs={sbs} "
+                        f"route={token} hits={','.join(hits) or '-'} method={method} origin={S(origin)} acrm={S(acrm)} acrh={S(acrh)} "
+                        f"pre={_disp_enc_sets(pre_sets)} act={_disp_enc_sets(act['sets'])} raise={1 if act['raises'] else 0}")
+                exp = f'resp={who} st={status} ' + ' '.join(f'{k}={S(hd.get(n.lower()))}' for k, n in NAMED)
+                sess.case(case)
+                sess.op(line, exp)
+                # ---- the independent oracle (statement + the documented Allow of the generated OPTIONS responder)
+                granted = origin is not None and (ao == '*' or origin in ao)
+                mine = {DISP_KEYS[k].lower() for k, v in pre_sets} | {DISP_KEYS[k].lower() for tag, a in ran for k, v in a['sets']}
+                preflight = method == 'OPTIONS' and bool(acrm)
+                why = None
+                if not granted:
+                    bad = [g for g in GRANTS if g in hd and g not in mine]
+                    if bad:
+                        why = f'no granted Origin ({origin!r}) but the response carries {bad}'
+                else:
+                    if not preflight:
+                        bad = [g for g in ('access-control-allow-methods', 'access-control-allow-headers', 'access-control-max-age') if g in hd and g not in mine]
+                        if bad:
+                            why = f'not a preflight but the response carries {bad}'
+                    elif token in cur and 'OPTIONS' not in cur[token][2]:
+                        want = sorted(m for m in cur[token][2] if m != 'WEBSOCKET')
+                        got = hd.get('access-control-allow-methods')
+                        if got is None or sorted(x for x in got.split(', ') if x) != want:
+                            why = f'preflight on a resource implementing {want} (no on_options): Access-Control-Allow-Methods = {got!r}'
+                        elif 'allow' in hd:
+                            why = f'approved preflight keeps Allow: {hd["allow"]!r}'
+                        elif hd.get('access-control-max-age') != '86400' or hd.get('access-control-allow-headers') != (acrh if acrh is not None else '*'):
+                            why = f'approved preflight: max-age {hd.get("access-control-max-age")!r}, allow-headers {hd.get("access-control-allow-headers")!r}'
+                    elif status < 400 and not any(a['raises'] for tag, a in ran) and 'allow' in hd:
+                        why = f'successful preflight from a granted origin keeps Allow: {hd["allow"]!r}'
+                    elif status == 404 and not ran:
+                        bad = [g for g in ('access-control-allow-methods', 'access-control-allow-headers', 'access-control-max-age') if g in hd and g not in mine]
+                        if bad:
+                            why = f'404 but the response carries {bad}'
+                ctx.oracle('Allow producers + policy: no grant without a granted Origin; a preflight on a routed resource is approved with exactly the implemented methods and loses Allow; '
+                           'no preflight approval on 404', why is None, why, case)
+                kind = who.split(':')[0]
+                ctx.count(f'disp_{kind}_{"preflight" if preflight else "plain"}_{"granted" if granted else "ungranted"}')
+                ctx.seen(('disp', stack, str(cdesc), tuple(regs), tuple(ops), sbs, str(pre_sets), method, path, origin, acrm, acrh), origin is not None)
+    finally:
+        if loop is not None:
+            loop.close()
+        shutil.rmtree(root, ignore_errors=True)
+    sess.finish()
